@@ -767,6 +767,9 @@ class Node:
         if new_parent._tree is not self._tree:
             raise NotImplementedError("Can only move nodes inside same tree")
 
+        if new_parent is self or new_parent.is_descendant_of(self):
+            raise ValueError(f"Cannot move {self} below itself: {new_parent}")
+
         siblings = self._parent._children
         del siblings[_index_of(siblings, self)]  # type: ignore
         if not self._parent._children:  # store None instead of `[]`
